@@ -39,9 +39,13 @@ impl PrivateKey {
 //@struct ExtendedPublicKey @ src/keypair/extended_public_key.rs
 impl ExtendedPrivateKey {
 //@fn ExtendedPrivateKey::from_seed_impl
+//@wrapper ExtendedPrivateKey::from_seed @ src/keypair/extended_private_key.rs = ExtendedPrivateKey::from_seed_impl
 //@fn ExtendedPrivateKey::derive_impl
+//@wrapper ExtendedPrivateKey::derive @ src/keypair/extended_private_key.rs = ExtendedPrivateKey::derive_impl
 //@fn ExtendedPrivateKey::to_string_impl
+//@wrapper ExtendedPrivateKey::to_string @ src/keypair/extended_private_key.rs = ExtendedPrivateKey::to_string_impl
 //@fn ExtendedPrivateKey::from_string_impl
+//@wrapper ExtendedPrivateKey::from_string @ src/keypair/extended_private_key.rs = ExtendedPrivateKey::from_string_impl
 //@fn ExtendedPrivateKey::parse_str_to_idx
 //@fn ExtendedPrivateKey::get_private_key
 //@fn ExtendedPrivateKey::get_public_key
@@ -53,7 +57,9 @@ impl ExtendedPrivateKey {
 impl ExtendedPublicKey {
 //@fn ExtendedPublicKey::from_xpriv
 //@fn ExtendedPublicKey::derive_impl
+//@wrapper ExtendedPublicKey::derive @ src/keypair/extended_public_key.rs = ExtendedPublicKey::derive_impl
 //@fn ExtendedPublicKey::from_string_impl
+//@wrapper ExtendedPublicKey::from_string @ src/keypair/extended_public_key.rs = ExtendedPublicKey::from_string_impl
 //@fn ExtendedPublicKey::parse_str_to_idx
 }
 // ---- property-level lemma: public derivation of the neutered parent == neutering the privately derived child (normal index) ----
